@@ -188,8 +188,13 @@ def extract_region(it, repo, outdir):
             raise InjectError('region %s: loop %d wanted, %d present' % (it['region'], ordinal, len(loops)))
         pos = loops[ordinal]
         out = out[:pos] + '\n' + MARK_A + '\n' + clauses.strip() + '\n' + MARK_B + '\n' + out[pos:]
-    body = ('/* region %s of %s lines %d..%d, extracted mechanically on this run */\n' % (it['region'], it['file'], lo + 1, hi)
-            + it['proto'] + '\n{\n' + it.get('prologue', '') + '\n/*REGION-BEGIN*/\n' + out + '/*REGION-END*/\n' + it.get('epilogue', '') + '\n}\n')
+    if it.get('raw'):
+        # a declaration (e.g. a struct local to the .c file) copied verbatim at file scope, no wrapper function
+        body = ('/* region %s of %s lines %d..%d, extracted mechanically on this run (verbatim, file scope) */\n' % (it['region'], it['file'], lo + 1, hi)
+                + '/*REGION-BEGIN*/\n' + out + '/*REGION-END*/\n')
+    else:
+        body = ('/* region %s of %s lines %d..%d, extracted mechanically on this run */\n' % (it['region'], it['file'], lo + 1, hi)
+                + it['proto'] + '\n{\n' + it.get('prologue', '') + '\n/*REGION-BEGIN*/\n' + out + '/*REGION-END*/\n' + it.get('epilogue', '') + '\n}\n')
     dst = os.path.join(outdir, 'region_%s.c' % it['region'])
     with open(dst, 'w', encoding='latin-1') as f:
         f.write(body)
